@@ -3,6 +3,7 @@
 # Confirms a seeded change in a scratch worktree (tests pass, demo passes clean / fails patched),
 # then runs the given checks against the patched scratch tree. Nothing is applied to /repo.
 set -u
+V=$(cd "$(dirname "$0")/.." && pwd)
 D=$(realpath "$1"); shift
 W=$(mktemp -d /tmp/sc-XXXXXX); rmdir "$W"
 git -C /repo worktree add -q "$W" HEAD || exit 3
@@ -15,6 +16,6 @@ if cargo test --offline --lib >"$W/suite.log" 2>&1; then echo "suite with patch:
 if cargo test --offline --test seed_demo >"$W/patched_demo.log" 2>&1; then echo "demo with patch: PASS (unexpected)"; else echo "demo with patch: FAIL (as intended)"; fi
 rm -f tests/seed_demo.rs; rmdir tests 2>/dev/null
 for p in "$@"; do
-  (cd /verif && VERIF_STRICT=1 python3 tools/runner.py "$p" quick --repo "$W" | grep -E "^(VIOLATION|UNDECIDED|OK|FAILED-OBLIGATION|BOUNDED-CHECK|BOUNDED-ONLY|KNOWN)" | cut -c1-260; echo "  -> $p exit=${PIPESTATUS[0]}")
+  (cd "$V" && VERIF_STRICT=1 python3 tools/runner.py "$p" quick --repo "$W" | grep -E "^(VIOLATION|UNDECIDED|OK|FAILED-OBLIGATION|BOUNDED-CHECK|BOUNDED-ONLY|KNOWN)" | cut -c1-260; echo "  -> $p exit=${PIPESTATUS[0]}")
 done
 cd /; git -C /repo worktree remove --force "$W"
